@@ -4,8 +4,8 @@ package sx
 // functions for symbolic operands.
 
 import (
-	"math/big"
 	"go/types"
+	"math/big"
 	"strings"
 	"sync"
 
